@@ -50,6 +50,8 @@ func runC01(c *Ctx) {
 	// the generator (and the acceptor) trust Board.Castles without looking for the rook: the rights must be
 	// cleared whenever a king or rook leaves, or a rook is captured on, its corner
 	c.As("C02.R1", "C01.R8.rights", func() { c02R1(c, p) })
+	// … and an undo must hand the rights back unchanged: the undo token's fields must not clobber each other
+	c.As("C03.R8", "C01.R8.undo-token", func() { c03R8(c, p) })
 }
 
 // descends: own functions from which board.MakeMove is reachable (they play moves on the board).
